@@ -1,8 +1,66 @@
+# C32 - C35: one harness source (engines/comp/c32_sm.cpp), one binary per security manager (compile time), the
+# property id switches the step weights, the set of assertions and the non-trivial rule.
 _SM = [('c32_sm_legacy', 0), ('c32_sm_lesc', 1), ('c32_sm_comb', 2)]
 for _n, _k in _SM:
     target(_n, 'engines/comp/c32_sm.cpp',
-           quick=dict(cases=50000, size=40), thorough=dict(cases=1500000, size=60),
+           quick=dict(cases=100000, size=40), thorough=dict(cases=1500000, size=60),
            cxxflags=['-DSM_ONLY=%d' % _k],
            extra_src=['$REPO/bluetoe/utility/address.cpp'])
-for _p in ('C32', 'C33', 'C34', 'C35'):
-    prop(_p, [n for n, k in _SM], 'comp', rule='tbd', technique='tbd', level_text='tbd', level_note='tbd', assumptions=COMMON_ASSUME)
+
+_SM_GEN = ('rapidcheck generates: one of 30 instantiated configurations ({legacy, LESC, combined} manager x {no input, yes/no, keyboard} x '
+           '{no output, display} that compile x bonding data base on/off x OOB option on/off; yes/no + display configurations weighted x3), per case '
+           'parameters (user answers later / yes at once / no at once, OOB data present, keyboard passkey, 0..2 pre-existing bonds for this or another '
+           'peer, a seed for all nonces / keys / passkeys of the toy tool box and of the central) and a step sequence (length grows with the size, '
+           '<= 40 quick / 60 thorough, plus 6 drain polls). Steps are relative to the reference state and are turned into PDUs at run time: the correct '
+           'next PDU of a conforming central, any opcode 0x00..0x0f with its natural length, the right opcode with a wrong length (-1, +1, opcode only, '
+           'empty, half), a wrong value (confirm, random, DHKey check with one flipped bit, invalid public key) or invalid parameter (IO capability > 4, '
+           'OOB flag > 1, key size < 7 or > 16, reserved key distribution bits, other pairing flavour), output poll, user yes / no (also after the '
+           'pairing ended), encryption on/off, find_key probe (0/0, a stored bond, near misses, random), raw bytes. ')
+
+prop('C32', [n for n, k in _SM], 'comp',
+     rule=_SM_GEN + 'C32 weights: 50 % correct next step, 23 % rejected-by-construction steps. Non-trivial: the case got at least to an exchanged '
+          'confirm / public key and contains a step the reference rejects inside a pairing or an asynchronous user answer; distinct = distinct serialised cases.',
+     technique='model-based property testing (rapidcheck): the harness is central, tool box (toy cryptography), user, OOB source and bond data base; a '
+               'reference pairing state machine classifies every PDU actually sent and follows the observed output',
+     level_text='every PDU is classified from its bytes and the reference state (legacy: request, confirm, random; LESC: request, public key, [confirm '
+                'polled], random, [user], DHKey check): out of order, wrong length, invalid parameters or a value that does not verify must be answered '
+                'with Pairing Failed and leave the pairing idle; Srand only after a confirm value that verifies; the peripheral\'s DHKey check (in a '
+                'response or in a poll) only after a DHKey check that equals the value the central computes; in-order steps must be accepted. '
+                'Sampling, not proof; bluetoe asserts and sanitizer reports count.',
+     level_note='trusted: the reference machine and the toy tool box in engines/comp/c32_sm.cpp (functions depend on all arguments, no real '
+                'cryptography: C37 covers that). Reserved bits in a Pairing Request and a Pairing Request after completion may be accepted or '
+                'rejected; a wrong DHKey check while the user is asked may be rejected at once or after the user answered.',
+     assumptions=COMMON_ASSUME)
+
+prop('C33', [n for n, k in _SM], 'comp',
+     rule=_SM_GEN + 'C33 weights: 22 % find_key probes, and find_key(0,0) after every step. Non-trivial: an explicit probe after a pairing was aborted / '
+          'failed or a second pairing was started; distinct = distinct serialised cases.',
+     technique='model-based property testing (rapidcheck), same harness as C32; find_key() compared with the reference state and the harness owned bond data base',
+     level_text='after every step and at generated probes: a key is offered exactly if (EDIV, Rand) = (0, 0) and the reference pairing is completed and '
+                'not reset by a failure since, or the bond data base holds (EDIV, Rand) for this peer; the offered key equals the STK / LTK the central '
+                'derives (s1 resp. f5 of the toy tool box) or the stored key. Sampling, not proof.',
+     level_note='trusted: reference machine, toy tool box, the harness bond data base. If the pairing key and a bond entry both apply either key is accepted.',
+     assumptions=COMMON_ASSUME)
+
+prop('C34', [n for n, k in _SM], 'comp',
+     rule=_SM_GEN + 'C34 weights: 20 % polls, 14 % encryption toggles. Non-trivial: bonding configuration, a legacy pairing completed, encryption toggled '
+          'and output polled after the completion; distinct = distinct serialised cases (the LESC only manager never distributes keys: its cases only '
+          'assert that nothing is sent).',
+     technique='model-based property testing (rapidcheck), same harness as C32; invariant over the polled output',
+     level_text='every Encryption Information / Central Identification PDU that comes out of l2cap_output: the link is encrypted in that poll, a pairing '
+                'with key distribution completed before, the item was not sent before for that pairing, and it carries LTK resp. EDIV / Rand of the bond '
+                'the data base created for that pairing. Sampling, not proof.',
+     level_note='trusted: reference machine and harness bond data base. Whether keys still go out after the pairing was reset by a later failure is '
+                'not restricted by the statement and not asserted.',
+     assumptions=COMMON_ASSUME)
+
+prop('C35', [n for n, k in _SM], 'comp',
+     rule=_SM_GEN + 'C35 weights: 90 % correct next step (complete exchanges, repeated pairings), all remote IO capabilities / OOB flags, user yes / no / '
+          'late. Non-trivial: a pairing completed for which Table 2.8 / the OOB flags select a method other than Just Works; distinct = distinct serialised cases.',
+     technique='model-based property testing (rapidcheck), same harness as C32; the reference classifies the exchange that was performed',
+     level_text='after every step local_device_pairing_status() is compared with the classification of the exchange performed: no_key unless the '
+                'reference pairing is completed; legacy: authenticated iff the temporary key the peripheral used (passkey it displayed / the user typed, '
+                'OOB data) is not zero; LESC: authenticated iff the user was shown the comparison value, asked, and answered yes (the only '
+                'commitment the managers run is the z = 0 round of Just Works / numeric comparison). Sampling, not proof.',
+     level_note='trusted: reference machine; the pairing method Table 2.8 selects is used for labels and generator steering only (C36 checks the selection).',
+     assumptions=COMMON_ASSUME)
